@@ -157,18 +157,19 @@ type callback struct {
 }
 
 type walker struct {
-	p         *pkgInfo
-	entry     string
-	depth     int
-	stack     []string
-	accesses  *[]access
-	callbacks *[]callback
-	writes    *[]callback
-	nested    *[]callback
-	sections  map[string]int // entry -> acquisitions of Broker.lock
-	mapOps    *[]callback    // Store / Delete on graph.roots, per entry
-	fieldCall *[]callback    // calls of function-typed / interface-typed fields of gated.Filter (composeFrom, Broker.Send)
-	sharedTyp map[string]bool
+	p           *pkgInfo
+	entry       string
+	depth       int
+	stack       []string
+	accesses    *[]access
+	callbacks   *[]callback
+	writes      *[]callback
+	nested      *[]callback
+	sections    map[string]int // entry -> acquisitions of Broker.lock
+	ownSections map[string]int // "entry lock" -> acquisitions of any other lock of the library
+	mapOps      *[]callback    // Store / Delete on graph.roots, per entry
+	fieldCall   *[]callback    // calls of function-typed / interface-typed fields of gated.Filter (composeFrom, Broker.Send)
+	sharedTyp   map[string]bool
 	// lock leaks: returns of the entry function (not of inlined callees or closures) with a lock held that
 	// no deferred unlock of the entry releases
 	litDepth int
@@ -589,6 +590,9 @@ func (w *walker) call(c *ast.CallExpr, ls lockSet) lockSet {
 		if loc == "eventlogger.Broker.lock" && (op == "Lock" || op == "RLock") {
 			w.sections[w.entry]++
 		}
+		if loc != "eventlogger.Broker.lock" && (op == "Lock" || op == "RLock") && w.ownSections != nil {
+			w.ownSections[w.entry+" "+loc]++
+		}
 		ls = ls.clone()
 		switch op {
 		case "Lock":
@@ -813,6 +817,7 @@ func main() {
 	var accesses []access
 	var callbacks, writes, nested, mapOps, fieldCall, leaks []callback
 	sections := map[string]int{}
+	ownSections := map[string]int{}
 	for _, p := range pk {
 		var keys []string
 		for k := range p.funcs {
@@ -827,7 +832,7 @@ func main() {
 			if callerHoldsLock(fd) || !fd.Name.IsExported() {
 				continue
 			}
-			w := &walker{p: p, entry: p.name + "." + k, accesses: &accesses, callbacks: &callbacks, writes: &writes, nested: &nested, sections: sections, mapOps: &mapOps, fieldCall: &fieldCall}
+			w := &walker{p: p, entry: p.name + "." + k, accesses: &accesses, callbacks: &callbacks, writes: &writes, nested: &nested, sections: sections, ownSections: ownSections, mapOps: &mapOps, fieldCall: &fieldCall}
 			w.stack = []string{k}
 			w.deferred = map[string]bool{}
 			w.leaks = &leaks
@@ -839,7 +844,7 @@ func main() {
 	}
 	os.MkdirAll(*out, 0o755)
 	writeAccesses(filepath.Join(*out, "Accesses.lean"), accesses)
-	writeLockSites(filepath.Join(*out, "LockSites.lean"), callbacks, writes, nested, leaks)
+	writeLockSites(filepath.Join(*out, "LockSites.lean"), callbacks, writes, nested, leaks, ownSections)
 	writeRegistryFacts(filepath.Join(*out, "RegistryFacts.lean"), sections, mapOps, fieldCall, pk[0])
 	writeDispatchFacts(filepath.Join(*out, "DispatchFacts.lean"), pk[0])
 	writeDecisions(filepath.Join(*out, "Decisions.lean"), pk[0])
@@ -1087,7 +1092,7 @@ func excludedLoc(loc string) bool {
 	return false
 }
 
-func writeLockSites(path string, cbs, writes, nested, leaks []callback) {
+func writeLockSites(path string, cbs, writes, nested, leaks []callback, ownSections map[string]int) {
 	var sb strings.Builder
 	sb.WriteString("/- GENERATED by harness/cmd/gofacts from /repo's current source. Do not edit. -/\nnamespace Evl.Generated\n\n")
 	sb.WriteString("/-- a call into user code reachable from an exported Broker method; `brokerLock`: 0 not held, 1 read, 2 write -/\nstructure CallbackSite where\n  kind : Nat   -- 0 Process, 1 Reopen, 2 Close\n  brokerLock : Nat\n  otherLocks : Nat   -- library locks other than Broker.lock held at the call (a function literal run by an inlined callee counts the callee's locks)\n  deriving DecidableEq, Repr\n\n")
@@ -1192,6 +1197,31 @@ func writeLockSites(path string, cbs, writes, nested, leaks []callback) {
 	sb.WriteString(fmt.Sprintf("/-- exported functions that can return with one of their locks still held (no deferred unlock covers it) -/\ndef lockLeaks : Nat := %d\n", len(ll)))
 	for _, l := range ll {
 		sb.WriteString(l + "\n")
+	}
+	// own-lock sections of the stock nodes that promise atomic operations: how often an exported method
+	// (with everything it inlines) acquires the node's own lock
+	for _, nd := range []struct{ def, prefix, lock, doc string }{
+		{"gatedSections", "gated.Filter.", "gated.Filter.l", "acquisitions of gated.Filter.l per exported method of gated.Filter (with its helpers inlined): an operation that takes the lock once and never gives it up in between is one atomic step"},
+		{"fileSinkSections", "eventlogger.FileSink.", "eventlogger.FileSink.l", "acquisitions of FileSink.l per exported method of FileSink"},
+	} {
+		var rows []string
+		for k, n := range ownSections {
+			parts := strings.SplitN(k, " ", 2)
+			if strings.HasPrefix(parts[0], nd.prefix) && parts[1] == nd.lock {
+				rows = append(rows, fmt.Sprintf("%d\t-- %s", n, parts[0]))
+			}
+		}
+		sort.Slice(rows, func(i, j int) bool { return strings.SplitN(rows[i], "\t", 2)[1] < strings.SplitN(rows[j], "\t", 2)[1] })
+		sb.WriteString(fmt.Sprintf("\n/-- %s -/\ndef %s : List Nat := [\n", nd.doc, nd.def))
+		for i, r := range rows {
+			parts := strings.SplitN(r, "\t", 2)
+			sep := ","
+			if i == len(rows)-1 {
+				sep = ""
+			}
+			sb.WriteString("  " + parts[0] + sep + " " + parts[1] + "\n")
+		}
+		sb.WriteString("]\n")
 	}
 	sb.WriteString("\nend Evl.Generated\n")
 	os.WriteFile(path, []byte(sb.String()), 0o644)
